@@ -517,5 +517,17 @@ pub fn corpus() -> Vec<Case> {
         Case { f: Fun::LnNeg, a: -1.0, b: 1.0, tol: 1e-9, max_iter: Some(50) },
         Case { f: Fun::Zero, a: 0.0, b: 1.0, tol: 0.0, max_iter: Some(200) },
         Case { f: Fun::Jump { c: 0.5, lo: 0.0, hi: 1.0 }, a: 0.0, b: 1.0, tol: 1e-15, max_iter: Some(400) },
+        // coincident NON-FINITE and extreme bounds (seed C10-r5-2: `b - a == 0` instead of `a == b` is NaN for inf - inf):
+        // the property asks for (0,0) whenever the bounds coincide, whatever the tolerance and budget
+        Case { f: Fun::Poly(vec![2.0, 1.0]), a: f64::INFINITY, b: f64::INFINITY, tol: 1e-9, max_iter: Some(10) },
+        Case { f: Fun::Poly(vec![2.0, 1.0]), a: f64::NEG_INFINITY, b: f64::NEG_INFINITY, tol: 1e-9, max_iter: Some(0) },
+        Case { f: Fun::Zero, a: f64::INFINITY, b: f64::INFINITY, tol: 0.0, max_iter: Some(3) },
+        Case { f: Fun::Trig { a: 1.0, k: 1.0, p: 0.0, cos: true }, a: f64::NEG_INFINITY, b: f64::NEG_INFINITY, tol: f64::NAN, max_iter: Some(40) },
+        Case { f: Fun::Poly(vec![1.0]), a: 1e300, b: 1e300, tol: 1e-9, max_iter: Some(5) },
+        Case { f: Fun::Poly(vec![1.0]), a: f64::MAX, b: f64::MAX, tol: 1e-9, max_iter: Some(5) },
+        Case { f: Fun::Poly(vec![1.0]), a: -f64::MAX, b: -f64::MAX, tol: -1.0, max_iter: Some(1) },
+        Case { f: Fun::Poly(vec![1.0]), a: 5e-324, b: 5e-324, tol: 1e-9, max_iter: Some(5) },
+        Case { f: Fun::Poly(vec![1.0]), a: 0.0, b: -0.0, tol: 1e-9, max_iter: Some(5) },
+        Case { f: Fun::Poly(vec![1.0]), a: -0.0, b: 0.0, tol: 0.0, max_iter: Some(0) },
     ]
 }
